@@ -239,6 +239,26 @@ def starting_points(ctx):
             ctx.check(good, '%s._InitialPoints#%s' % (cname, var), '%s = strict range when set, else default' % var,
                       '%s bound of the starting region is chosen as %s' % (var, vals), f, asg[0] if asg else f.node)
     f = ctx.func('mystic.ensemble:LatticeSolver._InitialPoints')
+    # an integer bin count is factored EXACTLY (prod(bins) == number of member slots allocated from the same integer)
+    rb = calls_where(f.node, lambda c: callee_text(c) == 'randomly_bin')
+    ctx.need(rb, 'lattice: randomly_bin call not found')
+    gs = guards_of(enclosing_stmt(rb[0]), stop=f.node)
+    a = rb[0]
+    exact = kwarg(a, 'exact', 3)
+    ok_rb = [unparse(x) for x in a.args[:2]] == ['nbins', 'self.nDim'] and (exact is None or const_value(exact) is True) and \
+        any(''.join(unparse(g[0]).split()) == 'isinstance(nbins,Integral)' and g[1] for g in gs)
+    ctx.check(ok_rb, 'LatticeSolver._InitialPoints#exact-bins', 'integer nbins -> randomly_bin(nbins, nDim, exact=True): prod(bins) == nbins == number of members',
+              'an integer bin count is factored as %s: the grid no longer has as many cells as members were allocated (primes lose a member)' % unparse(a), f, a)
+    nb = [s_ for s_ in f.node.body if isinstance(s_, ast.Assign) and isinstance(s_.targets[0], ast.Name) and s_.targets[0].id == 'nbins']
+    ctx.check(bool(nb) and ''.join(unparse(nb[0].value).split()) == 'self._nbinsorself._npts', 'LatticeSolver._InitialPoints#nbins', 'bins = the requested nbins (else npts)',
+              'lattice bins come from %s' % (unparse(nb[0].value) if nb else None), f, nb[0] if nb else f.node)
+    rbf = ctx.func('mystic.math.grid:randomly_bin')
+    inexact = [n_ for n_ in rbf.node.body if isinstance(n_, ast.If) and 'exact' in unparse(n_.test)]
+    ctx.check(bool(inexact) and all(t(n_.test)[0] == 'and' and ('not', ('name', 'exact')) in t(n_.test)[1:] for n_ in inexact), 'randomly_bin#exact',
+              'N-1 is factored only when exact is False', 'randomly_bin departs from prod(bins) == N although exact is requested', rbf, inexact[0] if inexact else rbf.node)
+    prod_ = [s_ for s_ in rbf.node.body if isinstance(s_, ast.Assign) and 'product(result[i::dim])' in ''.join(unparse(s_.value).split())]
+    ctx.check(bool(prod_), 'randomly_bin#product', 'bins are products of the prime factors of N dealt round-robin (so prod(bins) == N)',
+              'randomly_bin no longer builds its bins as products of the factors of N', rbf, prod_[0] if prod_ else rbf.node)
     loops = [n for n in f.node.body if isinstance(n, ast.For)]
     ctx.need(loops, 'lattice: bin loop not found')
     lp = loops[0]
